@@ -1341,7 +1341,7 @@ def join_rename(left: RT, right: RT, on_cids, user_suffix):
     cnt = 0
     for n in right_names:
         s = n + suffix + (f"_{cnt}" if cnt > 0 else "")
-        while s in left_names:
+        while s in left_names or s in right_names:
             cnt += 1
             s = n + suffix + f"_{cnt}"
     if cnt > 0:
